@@ -600,6 +600,36 @@ def _copy_flags(add, parse, find_func, const_int, rat_of, ShapeError, module_ass
     add("actuatorPriceCopy", "Nat", str(pc),
         "Actuator.set_price keeps a new frame (prices.map(…)): 0 always, 1 only under a condition, 2 never (adopts the caller's frame)")
 
+    # ---- (7) process-wide state: does the Snapshot class itself hold an object every Snapshot of the process shares?
+    add("snapshotHoldsNoSharedObject", "Bool", "true" if snapshot_fields_private(parse("demeter/broker/_typing.py"), ShapeError) else "false",
+        "dataclass Snapshot (what Actuator.__get_snapshot fills on every bar): every field default is absent, a constant or field(default_factory=…) "
+        "(false: a class-level object such as `market_status = MarketDict()` is shared by every Snapshot of the process and outlives a backtest)")
+
+
+def snapshot_fields_private(tree, ShapeError):
+    """every statement of `class Snapshot` is an annotated field whose default is absent, an immutable constant, or `field(default_factory=…)`
+    without `default=`; anything else evaluated once in the class body (a call, a display, a name) is an object shared by all instances"""
+    classes = [n for n in ast.walk(tree) if isinstance(n, ast.ClassDef) and n.name == "Snapshot"]
+    if len(classes) != 1:
+        raise ShapeError("broker/_typing.py: exactly one class Snapshot expected")
+    cls = classes[0]
+    if [ast.unparse(d) for d in cls.decorator_list] != ["dataclass"]:
+        raise ShapeError("class Snapshot: expected to be a plain @dataclass")
+    private = True
+    for st in cls.body:
+        if isinstance(st, ast.Expr) and isinstance(st.value, ast.Constant) and isinstance(st.value.value, str):
+            continue
+        if not isinstance(st, ast.AnnAssign) or not isinstance(st.target, ast.Name):
+            raise ShapeError("class Snapshot: statement that is not an annotated field: " + ast.unparse(st)[:80])
+        v = st.value
+        if v is None or (isinstance(v, ast.Constant) and not isinstance(v.value, (bytes,)) ):
+            continue
+        if isinstance(v, ast.Call) and ast.unparse(v.func) in ("field", "dataclasses.field") and not v.args \
+                and [k.arg for k in v.keywords if k.arg in ("default", "default_factory")] == ["default_factory"]:
+            continue
+        private = False
+    return private
+
 
 def register(add, parse, find_func, const_int, rat_of, ShapeError, module_assign):
     """the copy flags (1)-(6), then the failure flags (7)-(9); each group is extracted even if the other one does not find its shape
